@@ -131,6 +131,25 @@ pub fn history(a: &Value) -> Value {
         let cfg = ServerConfig::builder().max_subscriptions_per_connection(cap).set_message_buffer_capacity(cap + 7).build();
         let (addr, handle) = if a["entry"].as_str() == Some("low_level") {
             crate::c07::low_level_server_with(cfg, module(handlers.clone()).into()).await
+        } else if a["entry"].as_str() == Some("service_builder") {
+            // one service per connection, each built from a clone of the same service builder (as the documentation shows)
+            use jsonrpsee_server::{serve_with_graceful_shutdown, stop_channel};
+            let listener = tokio::net::TcpListener::bind("127.0.0.1:0").await.unwrap();
+            let addr = listener.local_addr().unwrap();
+            let (stop_handle, server_handle) = stop_channel();
+            let svc_builder = Server::builder().set_config(cfg).to_service_builder();
+            let methods = module(handlers.clone());
+            tokio::spawn(async move {
+                loop {
+                    let (sock, _) = tokio::select! {
+                        r = listener.accept() => match r { Ok(s) => s, Err(_) => continue },
+                        _ = stop_handle.clone().shutdown() => break,
+                    };
+                    let svc = svc_builder.clone().build(methods.clone(), stop_handle.clone());
+                    tokio::spawn(serve_with_graceful_shutdown(sock, svc, stop_handle.clone().shutdown()));
+                }
+            });
+            (addr, server_handle)
         } else {
             let server = Server::builder().set_config(cfg).build("127.0.0.1:0").await.unwrap();
             (server.local_addr().unwrap(), server.start(module(handlers.clone())))
@@ -371,5 +390,65 @@ pub fn inprocess(a: &Value) -> Value {
             }
         }
         json!({"scenario":"c06_inprocess","observed":{"trace":trace},"violation":!why.is_empty(),"why":why.join(" | ")})
+    })
+}
+
+/// A handler that accepts, hands its sink to a task of its own and returns: the subscription stays active for as long as that task holds the sink -
+/// notifications keep arriving, the sink does not report closed, and the first unsubscribe answers true (the next one false).
+pub fn sink_handed_over(_a: &Value) -> Value {
+    let rt = tokio::runtime::Builder::new_multi_thread().worker_threads(2).enable_all().build().unwrap();
+    rt.block_on(async move {
+        let closed_seen = Arc::new(std::sync::atomic::AtomicBool::new(false));
+        let failed_sends = Arc::new(std::sync::atomic::AtomicUsize::new(0));
+        let mut m = RpcModule::new((closed_seen.clone(), failed_sends.clone()));
+        m.register_subscription("sub", "notif", "unsub", |_, pending, ctx, _| async move {
+            let sink = pending.accept().await?;
+            let (closed_seen, failed_sends) = (ctx.0.clone(), ctx.1.clone());
+            tokio::spawn(async move {
+                for i in 0..12u32 {
+                    if sink.is_closed() {
+                        closed_seen.store(true, std::sync::atomic::Ordering::SeqCst);
+                    }
+                    let msg = serde_json::value::to_raw_value(&i).unwrap();
+                    if sink.send(msg).await.is_err() {
+                        failed_sends.fetch_add(1, std::sync::atomic::Ordering::SeqCst);
+                    }
+                    tokio::time::sleep(Duration::from_millis(40)).await;
+                }
+                // the sink lives until here
+                tokio::time::sleep(Duration::from_millis(400)).await;
+            });
+            Ok(())
+        })
+        .unwrap();
+        let (rp, mut rx) = m.raw_json_request(r#"{"jsonrpc":"2.0","id":1,"method":"sub","params":[]}"#, 64).await.unwrap();
+        let r: Value = serde_json::from_str(rp.get()).unwrap_or(Value::Null);
+        let id = r["result"].clone();
+        let mut got = 0;
+        while let Ok(Some(_)) = tokio::time::timeout(Duration::from_millis(300), rx.recv()).await {
+            got += 1;
+            if got >= 12 {
+                break;
+            }
+        }
+        let closed_early = closed_seen.load(std::sync::atomic::Ordering::SeqCst);
+        let failed = failed_sends.load(std::sync::atomic::Ordering::SeqCst);
+        let rq = json!({"jsonrpc":"2.0","id":2,"method":"unsub","params":[id]}).to_string();
+        let (u1, _) = m.raw_json_request(&rq, 8).await.unwrap();
+        let (u2, _) = m.raw_json_request(&rq, 8).await.unwrap();
+        let u1: Value = serde_json::from_str(u1.get()).unwrap_or(Value::Null);
+        let u2: Value = serde_json::from_str(u2.get()).unwrap_or(Value::Null);
+        let mut why = vec![];
+        if got < 12 || failed > 0 {
+            why.push(format!("only {got} of 12 notifications arrived ({failed} sends failed) although the handler's task held the sink"));
+        }
+        if closed_early {
+            why.push("the sink reported closed while it was held and nobody had unsubscribed".to_string());
+        }
+        if u1["result"] != json!(true) || u2["result"] != json!(false) {
+            why.push(format!("unsubscribe of the still-held subscription answered {} then {} (expected true then false)", u1["result"], u2["result"]));
+        }
+        json!({"scenario":"c06_sink_handed_over","observed":{"notifications":got,"failed_sends":failed,"closed_while_held":closed_early,"unsubscribe":[u1["result"],u2["result"]]},
+               "violation":!why.is_empty(),"why":why.join(" | ")})
     })
 }
